@@ -16,7 +16,8 @@ func init() {
 		Explanation: "(R1) nothing can be located or queued before validation has passed: every such call in SendBatch is dominated by the allOK edge after the validation loop; the loop contains the three rejecting predicates (duplicate call, different table, not batchable), each clears allOK on every path, and the loop has no exit other than the end of the range; " +
 			"(R2) only calls under a retryable-class case are collected for the next round: every append to the retry list in waitForCompletion lies in a type-switch case naming only error classes, on the res.Error != nil edge; the next round's batch is assigned only from that list; " +
 			"(R3) per-region order: findClients fills each per-connection group by append of the range element inside one forward range over the batch, SendBatch hands each group to QueueBatch once and unmodified, multi.toProto appends each action to its region's list in a forward range over m.calls, and none of these functions sorts, reverses or inserts; " +
-			"(R4) each call of the batch is routed by the same getRegionAndClientForRPC as single calls and grouped under the connection it returned (C01.R2).",
+			"(R4) each call of the batch is routed by the same getRegionAndClientForRPC as single calls and grouped under the connection it returned (C01.R2)." +
+			" Added after the seeded-change rounds: (R1) the definition of CanBatch and the CheckAndPut opt-out; (R2) what is appended to the retry list is exactly the one call whose failed result was received in that select arm; (R3) cellblocks go out in region-action order (shared with C05.R2); (R4) the lookup validators of C01.R3 are run here (a call is grouped under the region they return).",
 		Residue:   "what the server executes and how often (a request whose response was lost may have been executed)",
 		Technique: "dominance and path search over SSA, who-writes tables on the batch slices, class tables from C04",
 		Run:       runC12,
